@@ -702,9 +702,11 @@ func (q *Queue) readDiskQueue() error {
 			continue
 		}
 
+		// Same as in tryDelivery: only recipients that are still to be tried
+		// count, TriesCount can have entries for the delivered ones.
 		smallestTriesCount := 999999
-		for _, count := range meta.TriesCount {
-			if smallestTriesCount > count {
+		for _, rcpt := range meta.To {
+			if count := meta.TriesCount[rcpt]; smallestTriesCount > count {
 				smallestTriesCount = count
 			}
 		}
